@@ -77,7 +77,7 @@ def parse_layout_expr(e, lists, layouts):
     raise SpecError("unknown layout %r" % e)
 
 
-def load(path=None):
+def load(path=None, base=None):
     """-> dict(lists, layouts, table {class: layout}, messageClass {code: class})"""
     if path is None:
         here = os.path.dirname(os.path.dirname(os.path.dirname(os.path.abspath(__file__))))
@@ -86,6 +86,9 @@ def load(path=None):
     # definitions end at the next `def`/`theorem`/`end`
     defs = re.split(r'\n(?=def |theorem |end )', src)
     lists, layouts, table, msgclass = {}, {}, {}, {}
+    if base is not None:                       # another Spec file refers to the lists of the base file as `OF10.<name>`
+        for k, v in base["lists"].items():
+            lists["OF10." + k] = v; lists["Spec.OF10." + k] = v
     for d in defs:
         m = re.match(r'def\s+(\w+)\s*:\s*(.+?)\s*:=\s*(.*)', d, re.S)
         if not m: continue
@@ -104,7 +107,9 @@ def load(path=None):
         elif name == "messageClass":
             for mm in re.finditer(r'\(\s*(\d+)\s*,\s*"([^"]+)"\s*\)', body):
                 msgclass[int(mm.group(1))] = mm.group(2)
-    if not table: raise SpecError("no `table` in " + path)
+    if not table and base is None: raise SpecError("no `table` in " + path)
+    if base is not None:
+        layouts = {k: v for k, v in layouts.items()}
     return dict(lists=lists, layouts=layouts, table=table, messageClass=msgclass)
 
 
